@@ -62,6 +62,7 @@ class TypeTab:
         self.impls = {}           # (file, line, col) -> Impl
         self.variant_owner = {}   # variant simple name -> [(Adt, idx)]
         self.docs = {}
+        self.aliases = {}         # `pub use a::B as C` : C -> B
         for n, a in BUILTIN.items(): self.by_name.setdefault(n, []).append(a)
 
     def load(self, crate, path):
@@ -100,6 +101,10 @@ class TypeTab:
             if a.kind == 'enum':
                 for i, v in enumerate(a.variants): self.variant_owner.setdefault(v.name, []).append((a, i))
         for k, it in idx.items():
+            u = it['inner'].get('use') if isinstance(it['inner'], dict) else None
+            if u and u.get('name') and u.get('source') and u['name'] != u['source'].split('::')[-1] and not u.get('is_glob'):
+                self.aliases[u['name']] = u['source'].split('::')[-1]
+        for k, it in idx.items():
             inner = it['inner']
             if 'impl' not in inner or not it.get('span'): continue
             im = inner['impl']; sp = it['span']
@@ -117,7 +122,7 @@ class TypeTab:
     # ---------------------------------------------------------------- lookups by printed path
     def find_adt(self, segs, hint_crate=None):
         """segs: printed path segments (generics stripped) naming a struct/enum."""
-        name = segs[-1]; cands = self.by_name.get(name, [])
+        name = self.aliases.get(segs[-1], segs[-1]) if segs[-1] not in self.by_name else segs[-1]; cands = self.by_name.get(name, [])
         if not cands: return None
         if len(cands) == 1: return cands[0]
         quals = [q for q in segs[:-1] if q not in ('crate', 'self', 'super')]
